@@ -608,7 +608,18 @@ impl<S: BitStore + 'static, O: OrderTag> Subject for BitVec<S, O> {
 	}
 	fn from_value(v: &Value) -> Self {
 		match v {
-			Value::Bits(bs) => bs.iter().copied().collect(),
+			Value::Bits(bs) => {
+				// Sharp driver: the value is built through a longer all-ones state and then shrunk, so
+				// that the unused bits of its last storage word are *not* zero. The logical value is
+				// the same; an encoder that copies raw storage words leaks the stale bits.
+				let mut bv: Self = bs.iter().copied().collect();
+				let n = bv.len();
+				for _ in 0..(size_of::<S>() * 8 + 3) {
+					bv.push(true);
+				}
+				bv.truncate(n);
+				bv
+			},
 			_ => panic!("bad bits value {:?}", v),
 		}
 	}
